@@ -94,7 +94,7 @@ void EntityHDF5::forceCreatedAt(time_t t) {
 bool EntityHDF5::isValidEntity() const {
     // a link held by an object that is itself no longer part of the file (a deleted
     // holder that is kept alive by an open handle) does not keep the entity in the file
-    return group().referenceCount() > 0 && !group().name().empty();
+    return group().isLinkedInFile();
 }
 
 
